@@ -7,6 +7,7 @@
    ptExtractRaw is the cxx2coq translation of the real member (Gen_DataRow.v, regenerated on every run). *)
 From Coq Require Import List Arith Bool PeanoNat ZArith Lia.
 From C19 Require Import Treiber TreiberInv TreiberThms Gen_DataRow.
+From C19 Require Gen_DataRowOps.
 Import ListNotations.
 Local Arguments step : simpl never.
 
@@ -47,6 +48,40 @@ Local Arguments extract_raw : simpl never.
 Lemma extract_raw_spec ob : extract_raw ob = (o_raw ob, mkObj (o_live ob) None (o_fl ob)).
 Proof. unfold extract_raw, ptExtractRaw. rewrite dec_enc. reflexivity. Qed.
 
+(* DataRow::Swap and DataRow(DataRow&&), executed by the GENERATED functions (Gen_DataRowOps.v) on the encoded members
+   (column list pointer: 1 = the table's, never inspected by the model) *)
+Definition flz (b : bool) : Z := if b then 1%Z else 0%Z.
+Definition zfl (z : Z) : bool := negb (Z.eqb z 0).
+Definition swap_objs (a b : rowobj) : rowobj * rowobj :=
+  let '(_, raw, fl, _, rraw, rfl) :=
+    Gen_DataRowOps.Swap 1%Z (enc (o_raw a)) (flz (o_fl a)) 1%Z (enc (o_raw b)) (flz (o_fl b)) in
+  (mkObj (o_live a) (dec raw) (zfl fl), mkObj (o_live b) (dec rraw) (zfl rfl)).
+Definition movector_objs (src : rowobj) : rowobj * rowobj :=
+  let '(_, raw, fl, rraw, rfl) :=
+    Gen_DataRowOps.MoveCtor 0%Z 0%Z 0%Z 1%Z (enc (o_raw src)) (flz (o_fl src)) in
+  (mkObj true (dec raw) (zfl fl), mkObj (o_live src) (dec rraw) (zfl rfl)).
+
+Lemma zfl_flz b : zfl (flz b) = b.
+Proof. destruct b; reflexivity. Qed.
+
+(* the generated Swap exchanges ALL members, in particular the list pointer together with the buffer (wave-2 seed a) *)
+Lemma swap_objs_spec a b : o_live a = true -> o_live b = true -> swap_objs a b = (b, a).
+Proof.
+  intros La Lb. unfold swap_objs, Gen_DataRowOps.Swap. rewrite !dec_enc, !zfl_flz.
+  destruct a, b; simpl in *; subst; reflexivity.
+Qed.
+
+(* the generated move constructor takes all members and nulls the source's buffer AND list pointer (M11, N3) *)
+Lemma movector_objs_spec src :
+  o_live src = true -> movector_objs src = (mkObj true (o_raw src) (o_fl src), mkObj true None false).
+Proof.
+  intros L. unfold movector_objs, Gen_DataRowOps.MoveCtor. rewrite dec_enc, zfl_flz, L. reflexivity.
+Qed.
+Lemma obj_eta x : o_live x = true -> mkObj true (o_raw x) (o_fl x) = x.
+Proof. destruct x; simpl; intros ->; reflexivity. Qed.
+Local Arguments swap_objs : simpl never.
+Local Arguments movector_objs : simpl never.
+
 Definition object_free (l : label) : bool :=
   match l with OAlloc _ _ | OExtract _ | OAdd _ | DBegin _ _ => false | _ => true end.
 
@@ -70,11 +105,11 @@ Definition stepl (ls : lstate) (ll : llabel) : option lstate :=
            end
   | LMoveCtor o' o =>
       if o_live (ob o) && negb (o_live (ob o')) && negb (Nat.eqb o' o)
-      then Some (mkL s (upd (upd ob o' (mkObj true (o_raw (ob o)) (o_fl (ob o)))) o (mkObj true None false)))
+      then let '(nw, old) := movector_objs (ob o) in Some (mkL s (upd (upd ob o' nw) o old))
       else None
   | LSwap o1 o2 =>
       if o_live (ob o1) && o_live (ob o2)
-      then Some (mkL s (upd (upd ob o1 (ob o2)) o2 (ob o1)))
+      then let '(a, b) := swap_objs (ob o1) (ob o2) in Some (mkL s (upd (upd ob o1 a) o2 b))
       else None
   | LAdd o =>
       if o_live (ob o)
@@ -128,8 +163,8 @@ Proof.
     intros H; inversion H; subst; reflexivity.
   - destruct (o_live (objs ls o)); try discriminate. destruct (step (lbase ls) (OExtract r)); try discriminate.
     intros H; inversion H; subst; reflexivity.
-  - destruct (_ && _); try discriminate. intros H; inversion H; subst; reflexivity.
-  - destruct (_ && _); try discriminate. intros H; inversion H; subst; reflexivity.
+  - destruct (_ && _); try discriminate. try match goal with |- context [movector_objs ?x] => destruct (movector_objs x) end. intros H; inversion H; subst; reflexivity.
+  - destruct (_ && _); try discriminate. try match goal with |- context [swap_objs ?x ?y] => destruct (swap_objs x y) end. intros H; inversion H; subst; reflexivity.
   - destruct (o_live (objs ls o)); try discriminate. rewrite ?extract_raw_spec, ?dec_enc, ?dec0.
     destruct (o_raw (objs ls o)); try discriminate. simpl. destruct (step (lbase ls) (OAdd r)); try discriminate.
     intros H; inversion H; subst; reflexivity.
@@ -259,8 +294,9 @@ Proof.
     intros r0 N. destruct (status_after_extract _ _ _ r0 E) as [_ [_ A3]]. auto.
   - (* LMoveCtor *)
     destruct (o_live (ob o) && negb (o_live (ob o')) && negb (Nat.eqb o' o)) eqn:C; try discriminate.
-    inversion Hs; subst; clear Hs.
     apply andb_true_iff in C. destruct C as [C C3]. apply andb_true_iff in C. destruct C as [C1 C2].
+    rewrite ?(movector_objs_spec _ C1) in Hs. rewrite ?dec_enc, ?zfl_flz, ?dec0 in Hs. change (zfl 0%Z) with false in Hs. rewrite ?C1 in Hs.
+    inversion Hs; subst; clear Hs.
     apply negb_true_iff in C2. apply negb_true_iff in C3. apply Nat.eqb_neq in C3.
     pose proof (D _ C2) as Dn.
     constructor; simpl; auto.
@@ -272,8 +308,10 @@ Proof.
       * exists o0. rewrite upd_neq by auto. assert (o0 <> o') by (intro; subst; congruence). rewrite upd_neq; auto.
     + intros o0 Hl. ob_cases; simpl in *; try discriminate; auto.
   - (* LSwap *)
-    destruct (o_live (ob o1) && o_live (ob o2)) eqn:C; try discriminate. inversion Hs; subst; clear Hs.
+    destruct (o_live (ob o1) && o_live (ob o2)) eqn:C; try discriminate.
     apply andb_true_iff in C. destruct C as [C1 C2].
+    rewrite ?(swap_objs_spec _ _ C1 C2) in Hs. rewrite ?dec_enc, ?zfl_flz in Hs. rewrite ?C1, ?C2 in Hs.
+    rewrite ?(obj_eta _ C1), ?(obj_eta _ C2) in Hs. inversion Hs; subst; clear Hs.
     constructor; simpl; auto.
     + intros o r Hl Hr. ob_cases; eauto.
     + intros oa obb r L1 L2 R1 R2. ob_cases; uniq_fin U.
@@ -376,8 +414,8 @@ Theorem row_object_ops_frame ls ll ls' :
   end.
 Proof.
   unfold stepl. destruct ll; auto.
-  - destruct (_ && _); try discriminate. intros H; inversion H; reflexivity.
-  - destruct (_ && _); try discriminate. intros H; inversion H; reflexivity.
+  - destruct (_ && _); try discriminate. try match goal with |- context [movector_objs ?x] => destruct (movector_objs x) end. intros H; inversion H; reflexivity.
+  - destruct (_ && _); try discriminate. try match goal with |- context [swap_objs ?x ?y] => destruct (swap_objs x y) end. intros H; inversion H; reflexivity.
   - intros H E. rewrite E in H. destruct (o_live (objs ls o)); try discriminate. inversion H; reflexivity.
 Qed.
 
